@@ -43,9 +43,9 @@ ASSUMPTIONS = [
     "Intel-HEX / S-record readers and writers are written from the format definitions and self-tested on the published examples and on a HEX/BIN pair made by another tool",
 ]
 FLOORS = {
-    "valid": 0.25, "invalid:overlap": 0.05, "invalid:sticks_out": 0.05, "depth>=2": 0.30, "depth>=3": 0.10, "touching": 0.08,
-    "aligned": 0.20, "gap": 0.20, "append": 0.10, "explicit_size": 0.20, "part:formats": 0.15, "part:merge": 0.05,
-    "base:high": 0.015, "cross64k": 0.01, "holes": 0.02, "bin_texty": 0.02, "merge:default_offset": 0.01, "merge:multi_segment": 0.01,
+    "valid": 0.125, "invalid:overlap": 0.025, "invalid:sticks_out": 0.025, "depth>=2": 0.15, "depth>=3": 0.05, "touching": 0.04,
+    "aligned": 0.1, "gap": 0.1, "append": 0.05, "explicit_size": 0.1, "part:formats": 0.075, "part:merge": 0.025,
+    "base:high": 0.0075, "cross64k": 0.005, "holes": 0.01, "bin_texty": 0.01, "merge:default_offset": 0.005, "merge:multi_segment": 0.005,
 }
 
 _WORK = {"dir": None}
